@@ -120,6 +120,14 @@ fn program(kind: &str, no_std: bool, variant: u64, seed: u64) -> String {
                 "use okhelper_q\nuse helper_q\nstart :: fn do\nend\n",
                 // several missing files at once
                 "use gone_q\nuse gone2_q\nuse okhelper_q\nuse gone3_q\nstart :: fn do\nend\n",
+                // errors without a line of their own (the file ends inside a construct; there is no `start`) followed or
+                // accompanied by errors in other files: every one of them still has to be printed
+                "use helper_q\nstart :: fn do\n    a := (1 +\n",
+                "use okhelper_q\nstart :: fn do\n    a := [1,\n",
+                "use gone_q\nuse okhelper_q\n\nstart :: fn do\n    a := (1 +\n",
+                "use gone_q\nuse gone2_q\nstart :: fn do\n    f(1",
+                "k :: 1\n",
+                "",
             ];
             // error-count ladder: programs for which the compiler reports N errors at once
             // (N broken lines; an initialisation cycle through N definitions)
@@ -207,10 +215,22 @@ fn judge_cell(c: &Cell, seed: u64, case: u64, st: &mut Stats) {
     if src.starts_with("use ") && (src.contains("    x := 1 +\n") || src.contains("    y := )\n")) {
         must_mention.push("prog.sy:3");
     }
+    if src.is_empty() || src == "k :: 1\n" {
+        must_mention.push("start");
+    }
     // expected compile result (in process, same flags)
     let opts = CompileOpts { no_std: c.no_std, require: c.require.map(|m| m.to_string()), fuel: None };
     let expect = sy::compile_files(&project, "main.sy", &opts);
     let compile_ok = expect.is_ok();
+    if let Compiled::Panic { msg, location, .. } = &expect {
+        st.violation(Violation {
+            signature: format!("driver:errors-cannot-be-rendered:panic@{}", location),
+            hazard: None,
+            case,
+            detail: J::obj().with("cell", J::s(format!("{:?}", c))).with("source", J::s(src.clone())).with("panic", J::s(msg.clone())),
+        });
+        return;
+    }
     let expected_bytes: Vec<u8> = match &expect {
         Compiled::Ok(b) => b.clone(),
         _ => Vec::new(),
@@ -494,7 +514,7 @@ impl Check for C20 {
         }
         Finish {
             level: "fault_enumeration",
-            rule: "exhaustive matrix: {run (lua on PATH = luamon CLI), -o FILE, -o -} x {no --require, --require mymod.lua, --require pkg.sub (dotted submodule), --require plain} x {--no-std, std} x {accepted, rejected, fails <=>, reaches <!>} x (for -o FILE) {FILE absent, present with short old content, present with a larger earlier build result, present and empty, present holding a proper prefix of the new output, the new output plus appended text, exactly the new output, in a missing directory, in a read-only directory, is a directory}, 9 program variants per cell (hand-written, generated, and programs whose emitted Lua has 3-12 kB lines; rejected programs: 14 hand-written kinds (5 of them spread over several files or importing several missing ones, with errors planted at known file:line places that the output has to mention) plus an error-count ladder - N broken lines or an initialisation cycle through N definitions, N in 2..1024 around 256 and 512). Oracle per cell: exit status 0 iff compile (and run) succeed and the output is writable; errors printed; FILE byte-equal to the in-process compilation or untouched on failure; -o - stdout byte-equal; exactly one `require` call naming M (without a trailing .lua), placed after the preamble marker and not after the first emitted statement, executed once; std-free programs behave the same with and without --no-std. Non-trivial & distinct: matrix cells.".into(),
+            rule: "exhaustive matrix: {run (lua on PATH = luamon CLI), -o FILE, -o -} x {no --require, --require mymod.lua, --require pkg.sub (dotted submodule), --require plain} x {--no-std, std} x {accepted, rejected, fails <=>, reaches <!>} x (for -o FILE) {FILE absent, present with short old content, present with a larger earlier build result, present and empty, present holding a proper prefix of the new output, the new output plus appended text, exactly the new output, in a missing directory, in a read-only directory, is a directory}, 9 program variants per cell (hand-written, generated, and programs whose emitted Lua has 3-12 kB lines; rejected programs: 20 hand-written kinds (9 of them spread over several files or importing several missing ones, 6 with errors that have no line of their own - the file ends inside a construct, there is no `start` - with errors planted at known file:line places that the output has to mention) plus an error-count ladder - N broken lines or an initialisation cycle through N definitions, N in 2..1024 around 256 and 512). Oracle per cell: exit status 0 iff compile (and run) succeed and the output is writable; errors printed; FILE byte-equal to the in-process compilation or untouched on failure; -o - stdout byte-equal; exactly one `require` call naming M (without a trailing .lua), placed after the preamble marker and not after the first emitted statement, executed once; std-free programs behave the same with and without --no-std. Non-trivial & distinct: matrix cells.".into(),
             extra: J::obj().with("matrix_cells", J::Int(cells().len() as i64)),
             assumptions: vec![
                 "the `lua` the driver spawns is the luamon CLI (no real Lua in the sandbox); when running as root a read-only directory is writable, that column then expects success".into(),
